@@ -33,7 +33,7 @@ ALTS = [
     ('NH', [1, 3]),
     ('mp', ['bad', None]),
     ('SM', ['B']),
-    ('XT', ['g2']),
+    ('XT', ['g2', 0]),      # 0: a present but falsy feature value
     ('RC', [3]),
     ('contig', [1]),
     ('pos', [420, 700]),
@@ -116,7 +116,7 @@ def to_pysam(rd, hdr):
 
 BOOLS = ['r1only', 'r2only', 'filterMP', 'proper_pairs_only', 'no_indels', 'no_softclips', 'filterXA', 'dedup',
          'divideMultimapping', 'doNotDivideFragments', 'blacklist']
-DIMS = [(b, [False, True]) for b in BOOLS] + [('minMQ', [0, 30]), ('max_base_edits', [None, 1]),
+DIMS = [(b, [False, True]) for b in BOOLS] + [('minMQ', [0, 30]), ('max_base_edits', [None, 1, 0]),
                                               ('features', ['joined', 'single', 'joined+byValue'])]
 DEFAULT = {d: vals[0] for d, vals in DIMS}
 SHARD_DIMS = BOOLS[:5]          # level-1 shards fix these five booleans
